@@ -167,6 +167,24 @@ def rank_of(actors, strict):
     return None
 
 
+def handler_loops(repo):
+    """`while` statements inside methods of the actor classes of controller/*.py (driver classes of device.py excluded: their
+    loops are bounded by serial time-outs): a handler that loops never returns to its inbox, whatever the ask graph says"""
+    import ast
+    import glob
+
+    out = []
+    for path in sorted(glob.glob(os.path.join(repo, "controller", "*.py"))):
+        if os.path.basename(path) in ("device.py",):
+            continue
+        tree = ast.parse(open(path).read())
+        for cls in [n for n in ast.walk(tree) if isinstance(n, ast.ClassDef)]:
+            for fn in [n for n in cls.body if isinstance(n, ast.FunctionDef)]:
+                for w in [n for n in ast.walk(fn) if isinstance(n, ast.While)]:
+                    out.append({"file": os.path.basename(path), "class": cls.name, "method": fn.name, "line": w.lineno, "test": ast.unparse(w.test)[:80]})
+    return out
+
+
 def generate(repo=None):
     from vlib.common import REPO
 
@@ -194,7 +212,7 @@ def generate(repo=None):
             lines.append(f"abbrev a_{a} : Nat := {aid[a]}")
     lines.append("\nend Poupool.Gen.Ask\n")
     write_if_changed(os.path.join(VERIF, "lean", "Poupool", "Generated", "AskGraph.lean"), "\n".join(lines))
-    side = {"edges": edges, "actors": actors, "strict": strict, "timed": timed, "rank": rank}
+    side = {"edges": edges, "actors": actors, "strict": strict, "timed": timed, "rank": rank, "handler_loops": handler_loops(repo)}
     with open(os.path.join(VERIF, "lean", "Poupool", "Generated", "askgraph.json"), "w") as fh:
         json.dump(side, fh, indent=1)
     return side
